@@ -111,6 +111,14 @@ def run_verus(unit, path, rlimit=None, timeout=1800, extra=None):
         text = prim[0]["text"][0]["text"].strip() if prim and prim[0].get("text") else ""
         if kind in ("post", "inv_init", "inv_step", "assert", "decreases"):
             clause_info = info
+            if kind == "post" and info.get("kind") == "verbatim":
+                # postcondition declared in a trait (prelude): attribute to the function whose body ends at the secondary span
+                for s in sec:
+                    sl = s["line_end"]
+                    si = unit.linemap[sl - 1] if 0 < sl <= len(unit.linemap) else {}
+                    if si.get("kind") not in (None, "verbatim"):
+                        info = dict(si)
+                        break
             if prim and prim[0].get("text"):
                 s0 = prim[0]
                 # exact clause text
